@@ -22,6 +22,7 @@ type Job struct {
 	Out      string   `json:"out"`
 	MaxSec   float64  `json:"max_sec"`
 	Dump     string   `json:"dump,omitempty"` // write full traces here (determinism self-test)
+	Engine   string   `json:"engine,omitempty"`
 }
 
 // Failure is one violating run.
@@ -81,7 +82,7 @@ func RunJob(t *testing.T, job Job) *Partial {
 		}
 		prof := job.Profiles[i%len(job.Profiles)]
 		spec := RunSpec{Seed: runSeed(job.Seed, job.Property, i), Profile: prof}
-		res := RunOne(t, spec)
+		res := engineRun(job.Engine)(t, spec)
 		p.Runs++
 		if res.Harness != "" {
 			p.Harness = append(p.Harness, fmt.Sprintf("run %d seed %d profile %s: %s", i, spec.Seed, prof, res.Harness))
@@ -234,7 +235,8 @@ func findViolation(res *Result, property, check, disc string) *Violation {
 }
 
 // Minimize shrinks a failing run while the same check (and discriminator) fires.
-func Minimize(t *testing.T, f Failure, budget time.Duration) *Replay {
+func Minimize(t *testing.T, f Failure, budget time.Duration, engine string) *Replay {
+	RunOne := engineRun(engine)
 	start := time.Now()
 	check, disc := f.Violation.Check, f.Violation.Disc
 	cfg := f.Config
@@ -246,7 +248,7 @@ func Minimize(t *testing.T, f Failure, budget time.Duration) *Replay {
 		return res.Harness == "" && findViolation(res, f.Violation.Prop, check, disc) != nil
 	}
 	out := func() *Replay {
-		r := &Replay{Property: f.Violation.Prop, Check: check, Disc: disc, Profile: f.Spec.Profile, Seed: f.Spec.Seed, Config: cfg, Steps: steps}
+		r := &Replay{Property: f.Violation.Prop, Check: check, Disc: disc, Profile: f.Spec.Profile, Seed: f.Spec.Seed, Config: cfg, Steps: steps, Engine: engine}
 		res := RunOne(t, r.spec())
 		if v := findViolation(res, f.Violation.Prop, check, disc); v != nil {
 			r.Expect.TraceHash = res.TraceHash
@@ -430,4 +432,17 @@ func writeJSON(path string, v any) {
 	if err := os.WriteFile(path, b, 0o644); err != nil {
 		panic(err)
 	}
+}
+
+// engineRun selects the simulator that executes a RunSpec.
+func engineRun(engine string) func(*testing.T, RunSpec) *Result {
+	switch engine {
+	case "", "ctlsim":
+		return RunOne
+	case "watchsim":
+		return RunWatch
+	case "upgsim":
+		return RunUpgrade
+	}
+	panic("unknown engine " + engine)
 }
